@@ -58,11 +58,18 @@ def run(tier):
     runs, bad = vlib.validate_runs(rep, "ConnTrace", "ConnTrace", tr, wd, "scale", describe=describe, strip=("s", "cmds", "replies"))
     nt += len(runs)
     os.remove(tr)
+    # after a protocol error: a malformed frame cut into several reads, then well-formed commands in later reads
+    tr = os.path.join(wd, "recover.ndjson")
+    vlib.vh(["conn", "recover", "--seed", vlib.seed() * 13 + 5, "--n", 3000 if thorough else 400, "--out", tr])
+    runs, bad = vlib.validate_runs(rep, "ConnTrace", "ConnTrace", tr, wd, "after_protocol_error", describe=describe, strip=("s",))
+    nt += len(runs)
+    os.remove(tr)
     rep.cov["distinct_nontrivial"] = nt
     rep.cov["rule"] = ("a case is one byte stream of 1-9 commands through the real connection handler with a segmentation and a "
                        "batching configuration; non-trivial = delivered in more than one read")
     rep.cov["exhaustive"] = True
     rep.cov["explanation"] = "exhaustive over wires of <= 3 frames of the 6-frame universe and their deliveries; random pipelines are samples"
     rep.assumptions += ["clock-dependent commands are excluded (the handler runs on the wall clock)",
-                        "after a malformed frame only the error reply and the untouched earlier replies are required"]
+                        "after a malformed frame the error reply and the untouched earlier replies are required; commands that arrive in later reads are owed their replies unless the handler has closed the connection (a handler that keeps reading but stays silent hangs the client)",
+                        "the transport may take fewer bytes than offered in one write call (short writes): every reply byte must still arrive"]
     return rep.finish()
